@@ -30,6 +30,16 @@
 //     cm=w0,w1,...  the case runs on a communicator made by MPI_Comm_split of MPI_COMM_WORLD in which communicator rank i is
 //              WORLD rank w_i (P distinct world ranks: a subset, reversed, rotated ...); every rank number in the case line
 //              and in the dumps is a COMMUNICATOR rank; the other world ranks idle.  Default: world ranks 0..P-1 in order.
+//     mc=1   deletion path M/m works through COPIES of the modifiers (RemoteIndexListModifier copy constructor), the originals idle
+//     sf=1   deletion path F takes the modifier of the receive side, getModifier<false,false> (one index set: the same list)
+//     da=1   default / explicit arguments the other way round: sync(numberer) without useFixedOrder (only when fixed=0),
+//            includeSelf passed as fifth constructor argument instead of setIncludeSelf (only with nb=1)
+//     ck=1   the case runs on an MPI_Comm_dup of its communicator; ck=2 (P=1 only) on MPI_COMM_SELF
+//     twice=3  second sync through a COPY of the first IndicesSyncer object (copy constructor)
+//     gt=2   third instantiation: GlobalIndex = Dune::bigunsignedint<96> (globals shifted by 2^90 (top digit of the 6 in use)), chunk size 7
+//     hist=1 object history after the last sync: rebuild() on the synced RemoteIndices (must be a no-op), then an empty resize
+//            (seqNo++, isSynced() false), rebuild() again (free() of the lists the syncer allocated + full rebuild);
+//            the line gets a section  # H <world after the no-op rebuild> ## <world after the real rebuild>
 // Output: ONE line per case, printed by rank 0:
 //   B <world> # D <world> # S <world>
 //   world  = rank dumps joined by " / ";  rank dump = "I g.a.l.p ... R q:g.la.ra.k,... q:... Y s N g,g,.."
@@ -52,6 +62,7 @@
 #include <string>
 #include <vector>
 #include <unistd.h>
+#include <dune/common/bigunsignedint.hh>
 #include <dune/common/parallel/indexset.hh>
 #include <dune/common/parallel/plocalindex.hh>
 #include <dune/common/parallel/remoteindices.hh>
@@ -67,6 +78,8 @@ enum Flag { none_ = 0, owner = 1, overlap = 2, copy_ = 3 };
 typedef Dune::ParallelLocalIndex<Flag> LI;
 static const long GSHIFT = 1L << 40;
 template<class G> struct Shift { static G to(int g) { return (G) g; } static long back(G g) { return (long) g; } };
+typedef Dune::bigunsignedint<96> Big;
+template<> struct Shift<Big> { static Big to(int g) { return (Big(1u) << 90) + Big((unsigned) g); } static long back(const Big& g) { return (long) (g - (Big(1u) << 90)).touint(); } };
 template<> struct Shift<long> { static long to(int g) { return GSHIFT + g; } static long back(long g) { return g - GSHIFT; } };
 
 static int g_rank = 0;
@@ -82,7 +95,7 @@ static void on_alarm(int)
 struct Quad { int g, a, pub; long l; };
 struct Case { int P, fixed, num; char del; unsigned long long seed; std::vector<std::vector<Quad> > I; std::vector<std::vector<int> > D;
               std::vector<std::pair<int,int> > forget;
-              int nb = 0, self = 0, ign = 0, gt = 0, twice = 0, nobar = 0;
+              int nb = 0, self = 0, ign = 0, gt = 0, twice = 0, nobar = 0, mc = 0, sf = 0, da = 0, ck = 0, hist = 0;
               std::vector<int> cm;
               std::vector<std::vector<int> > hints;
               struct Grow { int p, g, a; long l; std::vector<std::pair<int,int> > to; };
@@ -122,6 +135,11 @@ static bool parse(const std::string& line, Case& c)
     else if (k == "gt") c.gt = std::atoi(v.c_str());
     else if (k == "twice") c.twice = std::atoi(v.c_str());
     else if (k == "nobar") c.nobar = std::atoi(v.c_str());
+    else if (k == "mc") c.mc = std::atoi(v.c_str());
+    else if (k == "sf") c.sf = std::atoi(v.c_str());
+    else if (k == "da") c.da = std::atoi(v.c_str());
+    else if (k == "ck") c.ck = std::atoi(v.c_str());
+    else if (k == "hist") c.hist = std::atoi(v.c_str());
     else if (k == "cm") { std::istringstream ms(v); std::string q; while (std::getline(ms, q, ',')) if (!q.empty()) c.cm.push_back(std::atoi(q.c_str())); }
     else if (k[0] == 'h') {
       int p = std::atoi(k.c_str() + 1); if (p < 0 || p >= c.P) return false;
@@ -228,9 +246,10 @@ static std::string run_case_t(const Case& c, MPI_Comm comm, int rank)
   is.endResize();
   // ---- rebuild: ring, or neighbour hints through the constructor / setNeighbours; includeSelf; ignorePublic
   std::vector<int> hints = c.hints[rank];
-  RI ri0(is, is, comm, c.nb == 1 ? hints : std::vector<int>());
+  bool selfarg = c.da && c.self && c.nb == 1;
+  RI ri0(is, is, comm, c.nb == 1 ? hints : std::vector<int>(), selfarg);
   if (c.nb == 2) ri0.setNeighbours(hints);
-  if (c.self) ri0.setIncludeSelf(true);
+  if (c.self && !selfarg) ri0.setIncludeSelf(true);
   if (c.ign) ri0.template rebuild<true>(); else ri0.template rebuild<false>();
   std::string B = gather(dump(is, ri0, 0), comm, c.P, rank);
   RI ri1(is, is, comm);
@@ -259,12 +278,14 @@ static std::string run_case_t(const Case& c, MPI_Comm comm, int rank)
     for (auto r = ri.begin(); r != ri.end(); ++r) nb.push_back(r->first);
     if (c.del == 'M' || c.del == 'm') {
       typedef Dune::RemoteIndexListModifier<PIS, Alloc, true> Mod;
-      std::vector<Mod*> mods;      // the modifier's copy constructor leaves giter_ pointing into the source: never copy
+      std::vector<Mod*> mods, originals;
       std::vector<std::vector<G> > has(nb.size());
       for (std::size_t i = 0; i < nb.size(); ++i) {
         for (auto e = ri.find(nb[i])->second.first->begin(); e != ri.find(nb[i])->second.first->end(); ++e)
           has[i].push_back(e->localIndexPair().global());
-        mods.push_back(new Mod(ri.template getModifier<true, true>(nb[i])));
+        Mod* m = new Mod(ri.template getModifier<true, true>(nb[i]));
+        if (c.mc) { originals.push_back(m); m = new Mod(*m); }      // work through a copy; the original stays alive and idle
+        mods.push_back(m);
       }
       is.beginResize();
       for (auto it = is.begin(); it != is.end(); ++it) if (del.count(it->global())) is.markAsDeleted(it);
@@ -272,6 +293,7 @@ static std::string run_case_t(const Case& c, MPI_Comm comm, int rank)
         for (G g : has[i]) if (del.count(g)) mods[i]->remove(g);
       is.endResize();
       for (std::size_t i = 0; i < nb.size(); ++i) { mods[i]->repairLocalIndexPointers(); delete mods[i]; }
+      for (Mod* o : originals) delete o;
     } else {
       typedef Dune::RemoteIndexListModifier<PIS, Alloc, false> Mod;
       is.beginResize();
@@ -280,7 +302,7 @@ static std::string run_case_t(const Case& c, MPI_Comm comm, int rank)
         std::vector<G> has;
         for (auto e = ri.find(nb[i])->second.first->begin(); e != ri.find(nb[i])->second.first->end(); ++e)
           has.push_back(e->localIndexPair().global());
-        Mod mod = ri.template getModifier<false, true>(nb[i]);
+        Mod mod = c.sf ? ri.template getModifier<false, false>(nb[i]) : ri.template getModifier<false, true>(nb[i]);
         for (G g : has) if (del.count(g)) mod.remove(g);
       }
       std::map<int, Dune::SLList<std::pair<G, Flag>, Alloc> > gmap;
@@ -343,6 +365,7 @@ static std::string run_case_t(const Case& c, MPI_Comm comm, int rank)
   pmpi_sched_reseed(c.seed);
   Syncer syncer(is, ri);
   if (c.num == 0) syncer.sync();
+  else if (c.da && !c.fixed) syncer.sync(numb);               // useFixedOrder defaulted
   else syncer.sync(numb, c.fixed != 0);
   pmpi_sched_reseed(0);
   std::string S = gather(dump(is, ri, &numb.calls), comm, c.P, rank);
@@ -353,9 +376,19 @@ static std::string run_case_t(const Case& c, MPI_Comm comm, int rank)
     if (!c.nobar) MPI_Barrier(comm);      // see nobar= in the header comment
     pmpi_sched_reseed(c.seed + 1);
     if (c.twice == 2) syncer.sync(numb2, c.fixed != 0);
+    else if (c.twice == 3) { Syncer copy(syncer); copy.sync(numb2, c.fixed != 0); }
     else { Syncer syncer2(is, ri); syncer2.sync(numb2, c.fixed != 0); }
     pmpi_sched_reseed(0);
     res += " # T " + gather(dump(is, ri, &numb2.calls), comm, c.P, rank);
+  }
+  if (c.hist == 1) {
+    if (c.ign) ri.template rebuild<true>(); else ri.template rebuild<false>();          // synced: must not touch anything
+    std::string H1 = gather(dump(is, ri, 0), comm, c.P, rank);
+    is.beginResize(); is.endResize();                                                      // seqNo++: the lists are stale now
+    int stale = ri.isSynced() ? 0 : 1, allstale = 0;
+    MPI_Allreduce(&stale, &allstale, 1, MPI_INT, MPI_MIN, comm);
+    if (c.ign) ri.template rebuild<true>(); else ri.template rebuild<false>();          // free() + buildRemote
+    res += " # H " + H1 + " ## " + gather(dump(is, ri, 0), comm, c.P, rank) + " ## stale=" + std::to_string(allstale);
   }
   return res;
 }
@@ -363,6 +396,7 @@ static std::string run_case_t(const Case& c, MPI_Comm comm, int rank)
 static std::string run_case(const Case& c, MPI_Comm comm, int rank)
 {
   if (c.gt == 1) return run_case_t<long, 100>(c, comm, rank);
+  if (c.gt == 2) return run_case_t<Big, 7>(c, comm, rank);
   return run_case_t<int, 4>(c, comm, rank);      // chunk size 4: re-sorting crosses chunk boundaries often
 }
 
@@ -393,7 +427,11 @@ int main(int argc, char** argv)
     if (c.cm.empty()) {
       if (wrank < c.P) {
         alarm(tmo);
-        out = run_case(c, comms[c.P], wrank);
+        MPI_Comm cc = comms[c.P]; bool fr = false;
+        if (c.ck == 1) { MPI_Comm_dup(comms[c.P], &cc); fr = true; }
+        else if (c.ck == 2 && c.P == 1) cc = MPI_COMM_SELF;
+        out = run_case(c, cc, wrank);
+        if (fr) MPI_Comm_free(&cc);
         alarm(0);
       }
       MPI_Barrier(MPI_COMM_WORLD);
@@ -410,7 +448,11 @@ int main(int argc, char** argv)
       if (key >= 0) {
         int crank; MPI_Comm_rank(sub, &crank);
         alarm(tmo);
-        out = run_case(c, sub, crank);
+        MPI_Comm cc = sub; bool fr = false;
+        if (c.ck == 1) { MPI_Comm_dup(sub, &cc); fr = true; }
+        else if (c.ck == 2 && c.P == 1) cc = MPI_COMM_SELF;
+        out = run_case(c, cc, crank);
+        if (fr) MPI_Comm_free(&cc);
         alarm(0);
         MPI_Comm_free(&sub);
       }
